@@ -6,6 +6,7 @@
 //! `h_grp gen --seed S --tier T --out DIR --prop C31|C33`, `h_grp replay FILE --out DIR --prop ..`
 mod hist;
 mod model_io;
+mod refsem;
 mod statelevel;
 
 use hc::{Args, Out, Rng, Tier};
@@ -59,6 +60,17 @@ fn main() {
         let sub = rng.next_u64() >> 16;
         hist::targeted_history(&mut cx, sub, i % 4 == 0);
     }
+    // targeted family (C33): promoted, removed, re-added lower, stale concurrent branch, acts as manager
+    let nauth = match (prop.as_str(), &args.tier) {
+        ("C33", Tier::Quick) => 300,
+        ("C33", _) => 4_000,
+        (_, Tier::Quick) => 20,
+        _ => 200,
+    };
+    for i in 0..nauth {
+        let sub = rng.next_u64() >> 16;
+        hist::targeted33_history(&mut cx, sub, i % 4 == 0);
+    }
     for _ in 0..histories {
         let sub = rng.next_u64() >> 16;
         let unit = rng.chance(1, 3);
@@ -80,7 +92,7 @@ fn main() {
         cx.out.count("malformed requests");
     }
     let rule = if prop == "C33" {
-        "state-level: every add/remove/promote/demote call over all 3-member states of a small domain x 3 actors x 4 targets (exhaustive) + random larger states; history-level: random multi-peer histories (3-6 actors, 1-3 groups incl. nesting, partial views, 30% unauthorised / invalid / duplicate / cyclic / manager-group / stale-dependency actions, C = () and C = u8 conditions), every process() decision compared with the model relative to the real state at the dependencies. non-trivial = a decision line of a history with at least one concurrent rebuild, one rejected operation and one nested group, or a state-level call that is rejected / by a non-manager"
+        "targeted family: a member promoted to Manage, removed and re-added at a lower level on one branch, an unrelated concurrent branch forked before the removal, tips merged, then the member acts as a manager - every decision judged against the reference state at the dependencies (harness/h_grp/src/refsem.rs: plain replay under the property's merge semantics, used wherever no strong-remove rule can fire), all delivery orders replayed; state-level: every add/remove/promote/demote call over all 3-member states of a small domain x 3 actors x 4 targets (exhaustive) + random larger states; history-level: random multi-peer histories (3-6 actors, 1-3 groups incl. nesting, partial views, 30% unauthorised / invalid / duplicate / cyclic / manager-group / stale-dependency actions, C = () and C = u8 conditions), every process() decision compared with the model relative to the real state at the dependencies. non-trivial = a decision line of a history with at least one concurrent rebuild, one rejected operation and one nested group, or a state-level call that is rejected / by a non-manager"
     } else {
         "targeted family (remove + 2-3 concurrent re-adds of a member, or remove+re-add branches, concurrent with access changes of that member, optional merge point + two concurrent access changes; no conditions, no nesting): every causal delivery order (cap 600 / 120) replayed on its own replica, replicas queried 25 times; random multi-peer histories (3-6 actors, 1-3 groups incl. nesting, partial views, unauthorised actions, C = () and C = u8 conditions on 30% of accesses); each accepted operation set re-processed by 4 fresh replicas in random causal orders (all queried twice after every operation); members / groups / root_members compared between replicas and with the model's traversal fed with the replica's own states at its heads. non-trivial = history with at least one concurrent rebuild, one rejected operation and one nested group"
     };
